@@ -114,23 +114,63 @@ pub struct PanicInfo {
     pub msg: String,
     pub file: String,
     pub line: u32,
+    /// innermost frame that lies in the repository under test (file:line), when the panic was
+    /// raised elsewhere (std, a dependency) on behalf of repository code
+    pub via_repo: Option<String>,
+    pub harness: bool,
 }
 
 impl PanicInfo {
     pub fn in_harness(&self) -> bool {
-        self.file.starts_with("/verif/") || self.file.contains("/harness/")
+        self.harness
     }
     pub fn site(&self) -> String {
-        // strip line numbers of std-internal sites so that toolchain changes do not alter signatures
-        format!("{}:{}", self.file, self.line)
+        match &self.via_repo {
+            Some(v) if !is_repo_path(&self.file) => v.clone(),
+            _ => format!("{}:{}", self.file, self.line),
+        }
     }
     pub fn to_json(&self) -> Value {
-        json!({"panic": self.msg, "at": self.site()})
+        json!({"panic": self.msg, "at": self.site(), "raised_at": format!("{}:{}", self.file, self.line)})
     }
+}
+
+/// Path classification (works for /repo + /verif/harness and for private copies of both).
+pub fn is_harness_path(f: &str) -> bool {
+    f.contains("/harness/") || f.contains("/mon_") || f.contains("/oracle/src/") || f.contains("/cfgs/src/") || f.contains("/monitor/src/")
+}
+pub fn is_repo_path(f: &str) -> bool {
+    !is_harness_path(f)
+        && !f.contains("/.cargo/")
+        && !f.starts_with("/rustc/")
+        && ["/ff/src/", "/ec/src/", "/poly/src/", "/serialize/src/", "/curves/", "/test-curves/", "/ff-macros/", "/ff-asm/", "/serialize-derive/", "/test-templates/"]
+            .iter()
+            .any(|m| f.contains(m))
 }
 
 thread_local! {
     static LAST_PANIC: RefCell<Option<PanicInfo>> = const { RefCell::new(None) };
+}
+
+/// Decide whether a panic raised in third-party code (std, num-bigint, ...) was raised on behalf of
+/// the repository or of the harness: the innermost backtrace frame that lies in either wins.
+fn classify_by_backtrace() -> (bool, Option<String>) {
+    let bt = std::backtrace::Backtrace::force_capture().to_string();
+    for line in bt.lines() {
+        let l = line.trim();
+        if let Some(rest) = l.strip_prefix("at ") {
+            if is_repo_path(rest) {
+                // strip the column
+                let mut parts = rest.rsplitn(2, ':');
+                let _col = parts.next();
+                return (false, Some(parts.next().unwrap_or(rest).to_string()));
+            }
+            if is_harness_path(rest) && !rest.contains("/monitor/src/") {
+                return (true, None);
+            }
+        }
+    }
+    (false, None)
 }
 
 /// Install a silent panic hook that remembers message + location per thread.
@@ -149,7 +189,14 @@ pub fn install_panic_hook() {
         if msg.len() > 300 {
             msg.truncate(300);
         }
-        LAST_PANIC.with(|c| *c.borrow_mut() = Some(PanicInfo { msg, file, line }));
+        let (harness, via_repo) = if is_repo_path(&file) {
+            (false, None)
+        } else if is_harness_path(&file) {
+            (true, None)
+        } else {
+            classify_by_backtrace()
+        };
+        LAST_PANIC.with(|c| *c.borrow_mut() = Some(PanicInfo { msg, file, line, via_repo, harness }));
     }));
 }
 
@@ -161,6 +208,8 @@ pub fn guard<T>(f: impl FnOnce() -> T) -> Result<T, PanicInfo> {
             msg: "<unknown>".into(),
             file: String::new(),
             line: 0,
+            via_repo: None,
+            harness: false,
         })),
     }
 }
@@ -182,6 +231,9 @@ pub struct Report {
     pub digests: HashSet<u64>,
     pub classes: BTreeMap<String, u64>,
     pub required: BTreeSet<String>,
+    /// classes that must be observed by *this item* (checked by the runner when the item ends)
+    pub required_here: BTreeSet<String>,
+    pub missing_here: Vec<String>,
     pub configs: BTreeSet<String>,
     pub ops: BTreeMap<String, u64>,
     pub samples: Vec<Value>,
@@ -237,6 +289,11 @@ impl Report {
     /// Declare an observation class that must be seen at least once for the run to be conclusive.
     pub fn require(&mut self, name: &str) {
         self.required.insert(name.to_string());
+        self.classes.entry(name.to_string()).or_insert(0);
+    }
+    /// Like `require`, but the class must be observed within the current work item.
+    pub fn require_here(&mut self, name: &str) {
+        self.required_here.insert(name.to_string());
         self.classes.entry(name.to_string()).or_insert(0);
     }
     pub fn config(&mut self, name: &str) {
@@ -327,13 +384,15 @@ impl Report {
             }
         }
         self.harness_errors.extend(o.harness_errors);
+        self.missing_here.extend(o.missing_here);
         self.exhaustive.extend(o.exhaustive);
         self.notes.extend(o.notes);
     }
 
     pub fn to_json(&self, args: &Args, monitor: &str, rule: &str, wall_s: f64) -> Value {
-        let missing: Vec<&String> =
-            self.required.iter().filter(|k| self.classes.get(*k).copied().unwrap_or(0) == 0).collect();
+        let mut missing: Vec<String> =
+            self.required.iter().filter(|k| self.classes.get(*k).copied().unwrap_or(0) == 0).cloned().collect();
+        missing.extend(self.missing_here.iter().cloned());
         json!({
             "property": args.prop,
             "monitor": monitor,
@@ -417,6 +476,11 @@ pub fn run_items(args: &Args, items: Vec<Item>) -> Report {
                                 format!("{}/escaped-panic@{}", it.name, p.site()),
                                 json!({"item": it.name, "panic": p.msg, "at": p.site()}),
                             );
+                        }
+                    }
+                    for k in std::mem::take(&mut rep.required_here) {
+                        if rep.classes.get(&k).copied().unwrap_or(0) == 0 {
+                            rep.missing_here.push(format!("{} (in item {})", k, it.name));
                         }
                     }
                     let dt = t0.elapsed().as_secs_f64();
